@@ -22,42 +22,34 @@ Theorem C37_subst_not : forall r env b,
 Proof. exact tpl_walk_not. Qed.
 Print Assumptions C37_subst_not.
 
-(* ---- a variable-free body (every leaf on a known field; strings only at string-typed positions,
-   free of '$' and of bytes >= 0x80) is returned unchanged, whatever the variables.
-   FULL STATEMENT (refuted below): the same without the "bytes < 0x80" restriction. *)
+(* ---- a variable-free body (every leaf on a known field; strings only at string-typed positions
+   and free of '$') is returned unchanged, byte for byte, whatever the variables -- non-ASCII text
+   included (was refuted before fix 06-template-non-ascii: ParseTemplate re-encoded bytes >= 0x80). *)
 Theorem C37_subst_identity : forall r b decls call env,
   tpl_make_env decls call = inr env -> tpl_plain r b = true ->
   tpl_resolve r (Some b) decls call = inr (Some b).
 Proof. exact tpl_resolve_plain. Qed.
 Print Assumptions C37_subst_identity.
 
-(* a literal non-ASCII byte is re-encoded by ParseTemplate (currentStr += string(b), b a byte) *)
-Theorem C37_subst_identity_refuted : exists r b,
-  tpl_resolve r (Some b) [] [] <> inr (Some b) /\
-  exists b', tpl_resolve r (Some b) [] [] = inr (Some b') .
-Proof.
-  exists TpTransactions.
-  exists (TpLeaf TpoMatch "metadata[k1]" (TpjAtom (TpaStr (String (ascii_of_N 195) (String (ascii_of_N 169) EmptyString))))).
-  split; [vm_compute; discriminate|]. eexists. vm_compute. reflexivity.
-Qed.
-Print Assumptions C37_subst_identity_refuted.
-
-(* ---- Overwrite is right-biased record-wise: the LAST non-null object alone determines endTime,
-   startTime, expand and pageSize; sort (column, order) and the volumes options are changed only by
-   the fields it carries; null/absent objects are skipped. *)
+(* ---- Overwrite is right-biased FIELD by field (fix 05-template-params-fieldwise): the last object
+   overrides exactly the fields it carries -- endTime, startTime, expand, pageSize, sort column and
+   order, the volumes options -- and every other field keeps the value the earlier objects gave it;
+   null/absent objects are skipped. *)
 Theorem C37_overwrite_right_biased : forall p l j q,
   tpl_overwrite p (l ++ [None]) = tpl_overwrite p l /\
   (tpl_overwrite p (l ++ [Some j]) = inr q ->
-   tpp_pit q = tpj_end j /\ tpp_oot q = tpj_start j /\ tpp_expand q = tpj_expand j /\ tpp_pagesize q = tpj_pagesize j /\
    exists p', tpl_overwrite p l = inr p' /\
+     tpp_pit q = (match tpj_end j with Some t => Some t | None => tpp_pit p' end) /\
+     tpp_oot q = (match tpj_start j with Some t => Some t | None => tpp_oot p' end) /\
+     tpp_expand q = (match tpj_expand j with [] => tpp_expand p' | e => e end) /\
+     tpp_pagesize q = (if tpj_pagesize j =? 0 then tpp_pagesize p' else tpj_pagesize j) /\
      tpl_apply_sort (tpp_column p') (tpp_order p') (tpj_sort j) = inr (tpp_column q, tpp_order q) /\
      tpv_insertion (tpp_opts q) = tpl_opt_or (tpj_insertion j) (tpv_insertion (tpp_opts p')) /\
      tpv_group (tpp_opts q) = tpl_opt_or (tpj_group j) (tpv_group (tpp_opts p'))).
 Proof.
   intros p l j q. split; [exact (tpl_overwrite_snoc_none p l)|]. intros H.
   destruct (tpl_overwrite_snoc_some p l j q H) as [p' [Hl Hu]].
-  destruct (tpl_unmarshal_fields p' j q Hu) as (A & B & C & D & E & F & G).
-  repeat split; try assumption. exists p'. repeat split; assumption.
+  exists p'. split; [exact Hl|]. exact (tpl_unmarshal_fields p' j q Hu).
 Qed.
 Print Assumptions C37_overwrite_right_biased.
 
@@ -66,49 +58,35 @@ Theorem C37_overwrite_idempotent : forall p l j,
 Proof. exact tpl_overwrite_idem. Qed.
 Print Assumptions C37_overwrite_idempotent.
 
-(* ---- "template parameters overridden by the request parameters", read field by field:
-   FULL STATEMENT (refuted):
-     forall r cfg t rq q, tpl_overwrite (tpl_run_defaults r cfg) [Some t; Some rq] = inr q ->
-                          tpl_fieldwise (tpl_run_defaults r cfg) [Some t; Some rq] = inr q.
-   Witness: template {endTime: T}, request {pageSize: 5}: the template's point in time is gone.
-   Second witness: a template object without pageSize resets the configured default page size. *)
-Theorem C37_overwrite_fieldwise_refuted : exists r cfg t rq q q',
-  tpl_overwrite (tpl_run_defaults r cfg) [Some t; Some rq] = inr q /\
-  tpl_fieldwise (tpl_run_defaults r cfg) [Some t; Some rq] = inr q' /\
-  tpj_end t <> None /\ tpj_end rq = None /\ tpp_pit q = None /\ tpp_pit q' = tpj_end t.
+(* ---- "template parameters overridden by the request parameters", field by field, for the call
+   RunQuery makes (defaults, template object, request object): each of endTime, startTime, expand,
+   pageSize is the request's when the request carries it, else the template's when the template
+   carries it, else the default. (Refuted before the fix: any request object erased the template's
+   four fields.) *)
+Theorem C37_overwrite_fieldwise : forall r cfg t rq q,
+  tpl_overwrite (tpl_run_defaults r cfg) [Some t; Some rq] = inr q ->
+  tpp_pit q = (match tpj_end rq with Some x => Some x | None => tpj_end t end) /\
+  tpp_oot q = (match tpj_start rq with Some x => Some x | None => tpj_start t end) /\
+  tpp_expand q = (match tpj_expand rq with [] => tpj_expand t | e => e end) /\
+  tpp_pagesize q = (if tpj_pagesize rq =? 0 then if tpj_pagesize t =? 0 then tpc_default cfg else tpj_pagesize t
+                    else tpj_pagesize rq).
 Proof.
-  exists TpTransactions, {| tpc_max := 1000; tpc_default := 15 |}.
-  exists {| tpj_end := Some 1700000002500000; tpj_start := None; tpj_expand := []; tpj_sort := ""; tpj_pagesize := 0; tpj_group := None; tpj_insertion := None |}.
-  exists {| tpj_end := None; tpj_start := None; tpj_expand := []; tpj_sort := ""; tpj_pagesize := 5; tpj_group := None; tpj_insertion := None |}.
-  eexists. eexists. vm_compute. repeat split; try reflexivity. discriminate.
+  intros r cfg t rq q H. destruct (tpl_overwrite_two _ t rq q H) as (A & B & C & D).
+  rewrite A, B, C, D. destruct r; simpl;
+    destruct (tpj_end rq), (tpj_end t), (tpj_start rq), (tpj_start t), (tpj_expand rq), (tpj_expand t); repeat split; reflexivity.
 Qed.
-Print Assumptions C37_overwrite_fieldwise_refuted.
+Print Assumptions C37_overwrite_fieldwise.
 
-Theorem C37_default_pagesize_refuted : exists r cfg t q,
-  tpj_pagesize t = 0 /\
-  tpl_overwrite (tpl_run_defaults r cfg) [Some t; None] = inr q /\
-  tpp_pagesize q <> tpc_default cfg /\
-  tq_pagesize (tpl_normalize r (tpl_to_query q None cfg)) = tpl_query_default_pagesize.
+(* ---- params objects that carry no pageSize leave the configured default page size in place
+   (refuted before the fix: the first such object reset it to 0, the store then used 15) *)
+Theorem C37_default_pagesize : forall r cfg l q,
+  Forall (fun o => match o with Some j => tpj_pagesize j = 0 | None => True end) l ->
+  tpl_overwrite (tpl_run_defaults r cfg) l = inr q ->
+  tpp_pagesize q = tpc_default cfg.
 Proof.
-  exists TpTransactions, {| tpc_max := 1000; tpc_default := 3 |}.
-  exists {| tpj_end := None; tpj_start := None; tpj_expand := []; tpj_sort := "timestamp:asc"; tpj_pagesize := 0; tpj_group := None; tpj_insertion := None |}.
-  eexists. vm_compute. repeat split; try reflexivity. discriminate.
+  intros r cfg l q HF H. rewrite (tpl_overwrite_keeps_pagesize l _ q HF H). destruct r; reflexivity.
 Qed.
-Print Assumptions C37_default_pagesize_refuted.
-
-(* what IS true of the field-wise reading: (1) one object that mentions every currently non-zero
-   field among endTime/startTime/expand/pageSize is applied field-wise; (2) sort column, order and
-   the volumes options of ANY sequence of objects are merged field-wise. *)
-Theorem C37_overwrite_fieldwise_partial :
-  (forall p j, tpl_dominates j p = true -> tpl_apply true p j = tpl_unmarshal p j) /\
-  (forall p l q q', tpl_fieldwise p l = inr q -> tpl_overwrite p l = inr q' ->
-     tpp_column q = tpp_column q' /\ tpp_order q = tpp_order q' /\ tpp_opts q = tpp_opts q').
-Proof.
-  split.
-  - exact tpl_apply_dominates.
-  - intros p l q q' H1 H2. exact (tpl_fieldwise_sort_opts l p p q q' eq_refl eq_refl eq_refl H1 H2).
-Qed.
-Print Assumptions C37_overwrite_fieldwise_partial.
+Print Assumptions C37_default_pagesize.
 
 (* ---- running a template = the direct list query with the resolved filter and the overwritten
    params: same filter, point in time, window start, expand, options, sort column and order, page
@@ -149,7 +127,7 @@ Proof.
       split; [exact K|]. split; [rewrite J; reflexivity|]. split; [exact M|].
       intros Hmax. apply tpl_direct_follow. rewrite I.
       assert (0 <= tpp_pagesize p).
-      { eapply (tpl_apply_all_pagesize_nonneg false); [|exact H2]. destruct r; exact Hd. }
+      { eapply tpl_apply_all_pagesize_nonneg; [|exact H2]. destruct r; exact Hd. }
       lia.
 Qed.
 Print Assumptions C37_equiv.
@@ -157,7 +135,7 @@ Print Assumptions C37_equiv.
 (* ---- non-vacuity: a template on accounts with an interpolated address "users:${id}:main", a typed
    integer variable used for a balance bound, a default (min = 0) overridden by nothing, a declared
    string variable bound by the call, an undeclared extra variable that is ignored; template params
-   sort by first usage, request asks for 2 per page. *)
+   sort by first usage and expand volumes, the request only raises the page size (clamped to the maximum). *)
 Local Open Scope string_scope.
 Example C37_example :
   tpl_run_plan TpAccounts
@@ -176,7 +154,7 @@ Example C37_example :
   = inr {| tq_filter := Some (TpAnd [TpLeaf TpoMatch "address" (TpjAtom (TpaStr "users:2:main"));
                                      TpNot (TpLeaf TpoLt "balance[USD]" (TpjAtom (TpaInt 0)));
                                      TpLeaf TpoIn "metadata[role]" (TpjList [TpaStr "user"; TpaStr "admin"])]);
-           tq_pit := None; tq_oot := None; tq_expand := [];   (* the template's expand is gone: see C37_overwrite_fieldwise_refuted *)
+           tq_pit := None; tq_oot := None; tq_expand := ["volumes"];   (* the template's expand is kept: C37_overwrite_fieldwise *)
            tq_opts := {| tpv_insertion := false; tpv_group := 0 |};
            tq_column := "first_usage"; tq_order := Some TpoDesc; tq_pagesize := 1000 |}.
 Proof. vm_compute. reflexivity. Qed.
@@ -190,3 +168,9 @@ Example C37_example_errors :
   tpl_resolve TpLogs (Some (TpLeaf TpoGte "date" (TpjAtom (TpaStr "${since}")))) [("since", {| tpd_type := TpDate; tpd_default := TpvNull |})]
     [("since", TpvStr "2023-02-28T00:00:00.5+02:00")] = inr (Some (TpLeaf TpoGte "date" (TpjAtom (TpaStr "2023-02-28T00:00:00.5+02:00")))).
 Proof. vm_compute. repeat split; reflexivity. Qed.
+
+(* a literal with non-ASCII bytes ("\195\169 z" = e-acute, space, z) goes through unchanged *)
+Example C37_example_non_ascii :
+  let b := TpLeaf TpoMatch "metadata[k1]" (TpjAtom (TpaStr (String (ascii_of_N 195) (String (ascii_of_N 169) " z")))) in
+  tpl_resolve TpTransactions (Some b) [] [] = inr (Some b).
+Proof. vm_compute. reflexivity. Qed.
